@@ -510,7 +510,7 @@ def running_child_on_same_runner(ctx: Ctx, kind: str) -> None:
     app = make_app(kind, ctx.tmp, app_id=f"c11pc{kind}", runner_cls="ThreadRunner", runner_loop_sleep_time_sec=0.002,
                    invocation_wait_results_sleep_time_sec=0.002, min_parallel_slots=2, max_threads=2)
     parent = app.task(T.c11_parent)
-    app.task(T.c11_slow)
+    slow = app.task(T.c11_slow)
     inv = parent()
     runner = app.runner
     th = threading.Thread(target=runner.run, daemon=True)
@@ -519,7 +519,9 @@ def running_child_on_same_runner(ctx: Ctx, kind: str) -> None:
     t0 = _time.time()
     child_running = False
     while _time.time() - t0 < 8 and not child_running:
-        ids = [i for i in o.get_invocation_ids_paginated(limit=10) if i != inv.invocation_id]
+        # the CHILD: the invocation of the sub-task (the runner's own housekeeping tasks - recovery, triggers - are invocations too, and
+        # may well be RUNNING at this moment)
+        ids = list(o.get_task_invocation_ids(slow.task_id))
         child_running = inv.status.value == "running" and any(o.get_invocation_status(i).value == "running" for i in ids)
         _time.sleep(0.002)
     runner.stop_runner_loop()
@@ -529,8 +531,23 @@ def running_child_on_same_runner(ctx: Ctx, kind: str) -> None:
     ctx.count()
     ctx.distinct((kind, "parent-child-both-running", child_running))
     if child_running and th.is_alive():
+        import sys as _sys
+        import traceback as _tb
+
+        stacks = {}
+        for tid, fr in _sys._current_frames().items():
+            name = next((t.name for t in threading.enumerate() if t.ident == tid), str(tid))
+            stacks[name] = [ln.strip()[:160] for ln in _tb.format_stack(fr)[-6:]]
+        others = {i[:8]: o.get_invocation_status(i).value for i in o.get_invocation_ids_paginated(limit=10)}
+        try:
+            flush(app)
+            stacks["histories"] = {i[:8]: [(h.status_record.status.value, h.status_record.runner_id, str(h.status_record.timestamp)[11:23]) for h in sorted(app.state_backend.get_history(i), key=lambda h: h.status_record.timestamp)]
+                                   for i in o.get_invocation_ids_paginated(limit=10)}
+            stacks["parents"] = {i[:8]: str(getattr(app.state_backend.get_invocation(i), "parent_invocation_id", None))[:8] for i in o.get_invocation_ids_paginated(limit=10)}
+        except Exception as e:  # noqa: BLE001
+            stacks["histories"] = repr(e)
         ctx.report(f"stop-hangs[{kind}]:parent-and-running-child", f"[{kind}] run() does not return 46 s after the stop request although the awaited sub-task was RUNNING on the same runner "
-                                                                  f"(0.4 s body): parent {inv.status.value}", {"kind": "parent-child-both-running", "backend": kind})
+                                                                  f"(0.4 s body): parent {inv.status.value}, invocations {others}", {"kind": "parent-child-both-running", "backend": kind, "stacks": stacks})
         T.C11_RELEASE.set()
 
 
@@ -622,7 +639,7 @@ def waiting_parent(ctx: Ctx, kind: str) -> None:
     app = make_app(kind, ctx.tmp, app_id=f"c11wp{kind}", runner_cls="ThreadRunner", runner_loop_sleep_time_sec=0.3,
                    invocation_wait_results_sleep_time_sec=0.002, min_parallel_slots=1, max_threads=1)
     parent = app.task(T.c11_parent)
-    app.task(T.c11_slow)
+    slow = app.task(T.c11_slow)
     inv = parent()
     runner = app.runner
     th = threading.Thread(target=runner.run, daemon=True)
